@@ -35,7 +35,10 @@ CHECKS.update({
             "a live session and in an independent fresh-process reference decryptor, caller buffers must be unchanged.", "Partial: round-trip theorem over all histories is being proved; today the universal part is the model's "
             "symbolic decrypt lemmas.", "6/C01"),
  "C02": env("Fault plans (err / false duplicate / error-after-write on every metastore, KMS, AEAD, allocator call, singles and pairs) on cold/warm/rotating states: a returned record's IK row and SK row must be in the "
-            "authoritative store at return and a fresh process must decrypt it; an unfaulted encrypt must succeed. Store monotonicity is proved for every SDK operation.", "Partial: durability theorem in progress.", "6/C02"),
+            "authoritative store at return and a fresh process must decrypt it; an unfaulted encrypt must succeed. PROVED over all histories (any fault plans, policies, evictions, restarts, revocations; one "
+            "service/product, default key ids): every record ever returned names a stored intermediate key row whose parent system key row is stored, and is sealed so that those rows and the KMS open it "
+            "(cache-coherence invariant through key_cache.go / envelope.go / session.go / session_cache.go, 2000 lines of Coq); the store only grows and only holds well-formed rows.",
+            "Not in the theorems: region-suffixed ids, several services in one metastore, 'once the faults stop the next operation succeeds' (monitor).", "6/C02"),
  "C03": env("AEAD/KMS/secret-factory call traces must equal the model's; payload sealed only under a data key generated in the same operation, data key used once, real (key, nonce) pairs unique, plaintext scan of rows/records/log lines/KMS traffic.",
             "Nonce/key freshness of crypto/rand is an assumption; the theorem is that the code asks for a fresh key and nonce every time.", "6/C03"),
  "C04": env("Boundary-clock histories: no record under an expired IK, no IK created under an expired SK (when no fault is injected), IK dropped within one interval of its SK's expiry.",
